@@ -7,6 +7,7 @@ import PatchModel.Spec.Place
 import PatchModel.Model.Parse
 import PatchModel.Model.Cmdline
 import PatchModel.Spec.Script
+import PatchModel.Model.Driver
 open PatchModel PatchModel.Proto
 
 def showOB : OptionalBool → String | .unset => "unset" | .yes => "yes" | .no => "no"
@@ -104,6 +105,53 @@ def respond (req : List String) : Except String String :=
           else if S.any (fun (_, f') => f' < f) then pure "bad:fuzz-not-least"
           else if 0 ≤ guess && S.contains (guess.toNat, 0) && (p, f) != (guess.toNat, 0) then pure "bad:not-at-stated-place"
           else pure "ok" : P String).run' rest
+  | "drive" :: rest => (do
+      -- the whole program: tree, uid, stdin, tty answers (or "notty"), env, argv
+      let nodes ← pList (do
+        let p ← pBytes
+        let k ← tok
+        let c ← pBytes
+        let m ← pNat
+        let n : Node ← match k with
+          | "f" => pure (Node.file c m) | "d" => pure (Node.dir m) | "l" => pure (Node.symlink c) | "p" => pure (Node.other m)
+          | _ => throw s!"bad node kind {k}"
+        pure (p, n))
+      let isRoot ← pBool
+      let stdin ← pBytes
+      let tty ← (do
+        match (← tok) with
+        | "notty" => pure (none : Option (List Bytes))
+        | "tty" => do let l ← pList pBytes; pure (some l)
+        | t => throw s!"expected tty/notty, got {t}")
+      let pc ← pBool
+      let argv ← pList pBytes
+      pure (match commandLine optionTable argv { posixlyCorrect := pc } with
+        | .error e => "exit=2 cmdline=" ++ showExn e
+        | .ok o =>
+          let (code, st) := runPatch o { fs := { nodes := nodes, isRoot := isRoot }, tty := tty, stdin := stdin }
+          let tree := st.fs.nodes.toArray.qsort (fun a b => hex a.1 < hex b.1) |>.toList
+          let showNode : Bytes × Node → String := fun (p, n) => match n with
+            | .file b m => s!"{hex p}:f:{hex b}:{m}"
+            | .dir m => s!"{hex p}:d:x:{m}"
+            | .symlink t => s!"{hex p}:l:{hex t}:0"
+            | .other m => s!"{hex p}:p:x:{m}"
+          let showEv : DEv → Option String
+            | .file p _ => some s!"file:{hex p}"
+            | .msg (.hunk n k a f off) => some s!"hunk:{n}:{k}:{a}:{f}:{off}"
+            | .msg (.reversedDetected u) => some (if u then "unreversed" else "reversed")
+            | .msg .assumingR => some "assuming-R"
+            | .msg .skippingPatch => some "skipping"
+            | .msg (.asked _) => none
+            | .failed n t ign rej => some s!"failed:{n}:{t}:{if ign then "ignored" else "FAILED"}:{match rej with | some r => hex r | none => "-"}"
+            | .cantFind => some "cant-find" | .skipping => some "skipping" | .notRegular => none | .readOnly => some "read-only"
+            | .refusing => some "refusing" | .notDeleting => some "not-deleting" | .binary => some "binary" | .garbage => some "garbage"
+            | .prereqWarn => none | .asked _ => none
+          let showOp : FsOp → String
+            | .creat p => s!"creat:{hex p}" | .write p b => s!"write:{hex p}:{hex b}" | .rename a b => s!"rename:{hex a}:{hex b}"
+            | .unlink p => s!"unlink:{hex p}" | .rmdir p => s!"rmdir:{hex p}" | .mkdir p => s!"mkdir:{hex p}"
+            | .chmod p m => s!"chmod:{hex p}:{m}" | .symlink t p => s!"symlink:{hex t}:{hex p}"
+            | .tmpCreate => "tmp-create" | .tmpUnlink => "tmp-unlink"
+          s!"exit={code} tree={String.intercalate "," (tree.map showNode)} ev={String.intercalate "," (st.out.filterMap showEv)} stdout={hex st.stdout} trace={String.intercalate "," (st.trace.map showOp)}") : P String).run' rest
   | "oracle_valid" :: rest => (do
       -- is `hs` a diff of `a` (Spec.Valid) whose intended result (Spec.splice) is `b`?
       let a ← pList pLine; let hs ← pList pHunk; let b ← pList pLine
